@@ -254,12 +254,17 @@ impl<B: NetworkBehaviour + 'static> Node<B>
 where
     B::ToSwarm: std::fmt::Debug,
 {
-    pub fn new(behaviour: impl FnOnce(PeerId, Log) -> B, knobs: &Knobs, mut hook: Option<Hook<B>>) -> Self {
+    pub fn new(behaviour: impl FnOnce(PeerId, Log) -> B, knobs: &Knobs, hook: Option<Hook<B>>) -> Self {
+        Self::new_on(|idx, _| SimTransport { node: idx }.boxed(), behaviour, knobs, hook)
+    }
+
+    /// Like `new`, over any transport (E2-full: the real noise + muxer stack over simulated pipes).
+    pub fn new_on(transport: impl FnOnce(usize, &Keypair) -> libp2p_core::transport::Boxed<(PeerId, libp2p_core::muxing::StreamMuxerBox)>, behaviour: impl FnOnce(PeerId, Log) -> B, knobs: &Knobs, mut hook: Option<Hook<B>>) -> Self {
         let key = Keypair::generate_ed25519();
         let peer = key.public().to_peer_id();
         let idx = net::add_node(peer);
         let log: Log = Default::default();
-        let transport = SimTransport { node: idx }.boxed();
+        let transport = transport(idx, &key);
         let swarm = Swarm::new(transport, behaviour(peer, log.clone()), peer, knobs.config(idx));
         let swarm = Rc::new(RefCell::new(swarm));
         let events: Rc<RefCell<Vec<(u64, Ev)>>> = Default::default();
